@@ -223,11 +223,18 @@ Fixpoint kemeny_score (v : pvotes) (variant : list C) : Z :=
   | [] => 0
   | u :: t => fold_left (fun acc l => acc + pget0 v (u, l)) t 0 + kemeny_score v t
   end.
+Fixpoint clist_eqb (a b : list C) : bool :=
+  match a, b with
+  | [], [] => true
+  | x :: a', y :: b' => ceqb x y && clist_eqb a' b'
+  | _, _ => false
+  end.
 Definition kemeny (v : pvotes) (n : nat) : cres :=
   let perms := permutations (candidates v) in
   let scored := map (fun p => (p, kemeny_score v p)) perms in
   let best := fold_left (fun b ps => Z.max b (snd ps)) scored 0 in
-  match filter (fun ps => snd ps =? best) scored with
-  | [(p, _)] => CR_ok (map Cand (firstn n p))
-  | _ => CR_nie
+  (* {tuple(variant[:n_seats]) for variant in best_variants}: one common prefix, or Tie.tie_rankings (NotImplementedError) *)
+  match map (fun ps => firstn n (fst ps)) (filter (fun ps => snd ps =? best) scored) with
+  | [] => CR_nie
+  | pre :: rest => if forallb (clist_eqb pre) rest then CR_ok (map Cand pre) else CR_nie
   end.
